@@ -127,18 +127,6 @@ end Witverif.Abi
 namespace Witverif.Abi
 open Spec
 
-theorem execStmts_append (env : Env) (s : MSt) : ∀ (a b : List Stmt),
-    execStmts env s (a ++ b) = (execStmts env s a).bind fun (env', s') => execStmts env' s' b := by
-  intro a
-  induction a generalizing env s with
-  | nil => intro b; simp [execStmts]
-  | cons st a ih =>
-    intro b
-    simp only [List.cons_append, execStmts]
-    cases exec env s st with
-    | none => simp
-    | some r => obtain ⟨e', s'⟩ := r; simp [ih]
-
 theorem keyOf_beq (o : Op) (args : List Expr) : (keyOf o args == keyOf o args) = true := by simp
 
 /-- **Import glue, everything flat.**  For an imported function whose parameters and result are
